@@ -152,6 +152,8 @@ def run_unit(unit, tier):
                     # history: a series stored AFTER the table has been rendered must appear in the next rendering
                     if profile == 'equal' and len(sub) >= 1:
                         for how in ('setitem', 'AppendValue'):
+                            # (another holder, with a time axis of its own, exists elsewhere in the process; its axis name is the late series' name)
+                            TimeSeriesHolder('year')
                             h2 = TimeSeriesHolder('k')
                             for n in order:
                                 h2[n] = list(table[n])
@@ -161,8 +163,8 @@ def run_unit(unit, tier):
                                 h2['late_series'] = [5.0, 6.0, 7.0]
                                 t2['late_series'] = [5.0, 6.0, 7.0]
                             else:
-                                h2.AppendValue('late_series', 5.0)
-                                t2['late_series'] = [5.0]
+                                h2.AppendValue('year', 5.0)
+                                t2['year'] = [5.0]
                             case = {'kind': 'tables-late', 'names': order, 'shift': shift, 'how': how}
                             v = check_text(h2.GenerateCSVtext(FORMATS[0]), t2, FORMATS[0], case, label='after-adding-series:')
                             res['evaluations'] += 1
@@ -264,6 +266,7 @@ def replay(case):
         return [v] if v else []
     if case['kind'] == 'tables-late':
         table = make_table(case['names'], case['shift'], 'equal')
+        TimeSeriesHolder('year')
         h2 = TimeSeriesHolder('k')
         for n in case['names']:
             h2[n] = list(table[n])
@@ -272,8 +275,8 @@ def replay(case):
             h2['late_series'] = [5.0, 6.0, 7.0]
             table['late_series'] = [5.0, 6.0, 7.0]
         else:
-            h2.AppendValue('late_series', 5.0)
-            table['late_series'] = [5.0]
+            h2.AppendValue('year', 5.0)
+            table['year'] = [5.0]
         v = check_text(h2.GenerateCSVtext(FORMATS[0]), table, FORMATS[0], case, label='after-adding-series:')
         return [v] if v else []
     if case['kind'] == 'tables':
